@@ -165,7 +165,7 @@ type c09Prop struct{}
 func (c09Prop) ID() string     { return "C09" }
 func (c09Prop) BatchSize() int { return 300 }
 func (c09Prop) Rule() string {
-	return "case = (query built from selector pairs/triples over a 2-key x 4-type x 3-value matcher alphabet placed in a position template, or a random larger expression; dataset with every label-presence combination); the engine's result under each of {sort, merge, prop, sort+merge(default), all, merge+prop, prop+merge} is compared with its result under NoOptimizers; quick enumerates template 0 over all ordered pairs with <=1 extra matcher and samples the rest, thorough enumerates all ordered pairs x templates; non-trivial iff the unoptimized result is non-empty or an error"
+	return "case = (query built from selector pairs/triples over a 2-key x 4-type x 3-value matcher alphabet placed in a position template, or a random larger expression; dataset with every label-presence combination); the engine's result under each of {sort, merge, prop, sort+merge(default), all, merge+prop, prop+merge} is compared with its result under NoOptimizers; quick enumerates template 0 over all ordered pairs with <=1 extra matcher and samples the rest, thorough enumerates template 0 over all ordered pairs of the 325 selectors and samples 1.2M pairs across all templates; non-trivial iff the unoptimized result is non-empty or an error"
 }
 
 var c09Ops = []string{"=", "!=", "=~", "!~"}
@@ -262,7 +262,8 @@ var c09OptSets = []string{"sort", "merge", "prop", "default", "all", "merge+prop
 func (c09Prop) counts(tier string) (enumPairs, sampled, random int) {
 	sel := len(c09Selectors())
 	if tier == "thorough" {
-		return sel * sel * 2 * len(c09Templates), 0, 150000
+		// all ordered pairs x {same metric, two metrics} in template 0, then sampled pairs in every template
+		return sel * sel * 2, 1200000, 150000
 	}
 	// quick: ordered pairs where each side has <= 1 matcher (25 x 25) x {same metric, two metrics} for template 0
 	return 25 * 25 * 2, 14000, 6000
@@ -336,11 +337,9 @@ func (p c09Prop) Gen(seed uint64, tier string, i int) Case {
 	case i < enumPairs && tier == "thorough":
 		n := len(sels)
 		k := i
-		tm := k % len(c09Templates)
-		k /= len(c09Templates)
 		two := k%2 == 1
 		k /= 2
-		c.Query = mk(k/n, k%n, tm, two)
+		c.Query = mk(k/n, k%n, 0, two)
 	case i < enumPairs:
 		k := i
 		two := k%2 == 1
@@ -562,6 +561,11 @@ var c11Biased = []string{
 	// the same select consumed by several operators of one plan (shared through the selector pool)
 	`m0 * 2 + -m0`, `(m0 - 1) / on(a, b, c) m0`, `m0 * 2 > on(a, b, c) m0`, `abs(m0) + on(a, b, c) -m0`, `m0 + on(a, b, c) rate(m0[1m])`,
 	`(m0 > 1) + on(a, b, c) (1 + m0)`, `sum by (a) (m0 * 2) / on(a) max by (a) (-m0)`, `quantile(1, m0)`, `quantile by (a) (0, m0)`,
+	// a narrower and a broader select of one metric (merged into one select plus a filter by the default optimizers)
+	`m0{a="x"} / m0`, `m0{a=~"x|y"} * on(a, b, c) m0`, `sum(m0{b="x"}) / sum(m0)`, `m0 - on(a, b, c) m0{c!="z"}`, `rate(m0{a!="y"}[1m]) + on(a, b, c) m0`,
+	// selectors over several metric names: whether equal label sets are detected must not depend on the sharding
+	`rate({__name__=~"m.*"}[2m])`, `sum by (a) (rate({__name__=~"m.*"}[2m]))`, `abs({__name__=~"m.*"})`, `-{__name__=~"m0|m1"}`, `max_over_time({__name__=~"m.+"}[1m])`,
+	`{__name__=~"m.*"} * 2`, `sum by (a, b, c) (changes({__name__=~"m.*"}[2m]))`,
 }
 
 func (c11Prop) Gen(seed uint64, tier string, i int) Case {
@@ -586,8 +590,12 @@ func (c11Prop) Gen(seed uint64, tier string, i int) Case {
 	if r.P(0.45) {
 		c.Query = Pick(r, c11Biased)
 	} else {
-		g := &GenCfg{Avoid: mergeAvoid("nameless-selector"), MaxDepth: 3, W: c.Window, Lookback: c.Engine.LookbackMs}
+		g := &GenCfg{Avoid: mergeAvoid(), MaxDepth: 3, W: c.Window, Lookback: c.Engine.LookbackMs}
 		c.Query = GenQuery(r.Fork(), g)
+	}
+	if r.P(0.2) {
+		AddTwin(r, &c.Dataset, c.Window, c.Engine.LookbackMs, false, r.P(0.5))
+		c.Dataset.Normalize()
 	}
 	c.Procs = []int{2, 3, 4, 6, 8, 10, 12, 16}
 	c.Extra = map[string]any{"perm": float64(1 + r.Uint64()%1000000), "perturb": float64(1 + r.Uint64()%1000000)}
